@@ -76,7 +76,10 @@ def known_match(known, pid, o):
     for k in known:
         if k.get("property") != pid or k.get("clause") != o["clause"]:
             continue
-        if k.get("config") != o["config"]:
+        if "configs" in k:
+            if o["config"] not in k["configs"]:
+                continue
+        elif k.get("config") != o["config"]:
             continue
         w = k.get("witness")
         if w:
@@ -220,11 +223,12 @@ class Check:
         # print known findings (one line per listed finding hit)
         seen = set()
         for k, o in knownhits:
-            key = (k["clause"], k["config"], json.dumps(k.get("witness"), sort_keys=True))
+            key = (k["clause"], k.get("config", k.get("id", "")), json.dumps(k.get("witness"), sort_keys=True))
             if key in seen:
                 continue
             seen.add(key)
-            print(f"KNOWN-FINDING: property={pid} {k.get('what', o['what'])} [{o['clause']} @ {o['config']}]")
+            nhit = sum(1 for kk, _ in knownhits if kk is k)
+            print(f"KNOWN-FINDING: property={pid} {k.get('what', o['what'])} [{o['clause']} @ {o['config'] if 'configs' not in k else str(nhit) + ' of ' + str(len(k['configs'])) + ' listed configurations'}]")
         os.makedirs(os.path.join(ROOT, "replays", pid), exist_ok=True)
         for o in viol:
             body = dict(property=pid, clause=o["clause"], config=o["config"], what=o["what"],
